@@ -760,6 +760,14 @@ func (r *Runner) resolveBinaryExpression(ctx context.Context, expr *BinaryExpres
 	}
 
 	switch expr.Operator.Token {
+	case SK_LessThan, SK_GreaterThan, SK_LessThanEquals, SK_GreaterThanEquals:
+		// comparing arrays or maps is misuse for < > <= >= as it is for == and !=: both operands
+		// became NaN, so '[1] >= [1]' and 'm <= m' were true and '[1, 2] < [3]' false, without an error
+		if isListOrMap(v1) && isListOrMap(v2) {
+			return nil, fmt.Errorf("cannot compare %T with %T: < > <= >= do not apply to arrays and maps", v1, v2)
+		}
+	}
+	switch expr.Operator.Token {
 	case SK_LessThan: // <
 		return r.resolveLessThanBinaryExpressino(v1, v2)
 	case SK_GreaterThan: // >
@@ -805,6 +813,17 @@ func (r *Runner) resolveBinaryExpression(ctx context.Context, expr *BinaryExpres
 		return v1, nil
 	}
 	return nil, nil
+}
+
+func isListOrMap(v interface{}) bool {
+	if v == nil {
+		return false
+	}
+	switch reflect.TypeOf(v).Kind() {
+	case reflect.Slice, reflect.Array, reflect.Map:
+		return true
+	}
+	return false
 }
 
 func (r *Runner) resolveLessThanBinaryExpressino(v1, v2 interface{}) (interface{}, error) {
